@@ -45,6 +45,7 @@ type TbsStats struct {
 	Planted  map[string]int // expected findings per type
 	Observed map[string]int // observed findings per type
 	Matched  int            // findings matched one-to-one
+	Open     int            // findings tolerated at the line of a method reference (Thread::sleep, System.out::println)
 }
 
 const (
@@ -127,6 +128,38 @@ func TbsSharedClassNames(t *testsmellgen.Tree) map[string]bool {
 		}
 	}
 	return out
+}
+
+// TbsOpenLines returns, per finding type, the lines of a test file at which a finding is neither demanded nor
+// forbidden: a method reference `Thread::sleep` (SleepyTest) or `System.out::print/println/printf` (RedundantPrintTest)
+// written in a test method, or in a non-test method that a test method of the class calls. Whether such a reference is
+// "a Thread.sleep / System.out.print call" is not settled by the statement; everything else of the tree stays demanded.
+func TbsOpenLines(f *testsmellgen.File) map[string]map[int]bool {
+	open := map[string]map[int]bool{TbsSleepy: {}, TbsPrint: {}}
+	called := map[string]bool{}
+	for _, m := range f.Methods {
+		if m.IsTestMethod() {
+			for _, c := range m.Calls {
+				if c.Kind == testsmellgen.KindHelper {
+					called[c.Target] = true
+				}
+			}
+		}
+	}
+	for _, m := range f.Methods {
+		if !m.IsTestMethod() && !called[m.Name] {
+			continue
+		}
+		for _, r := range m.Refs {
+			switch {
+			case r.Recv == "Thread" && r.Name == "sleep":
+				open[TbsSleepy][r.Line] = true
+			case r.Recv == "System.out" && (r.Name == "print" || r.Name == "println" || r.Name == "printf"):
+				open[TbsPrint][r.Line] = true
+			}
+		}
+	}
+	return open
 }
 
 // TbsExpected derives the expected findings of a tree from the planted evidence.
@@ -448,6 +481,7 @@ func TbsCheck(t *testsmellgen.Tree, observed []TbsFinding, relOf func(fileName s
 			sort.Strings(desc)
 			return
 		}
+		openLines := TbsOpenLines(f)
 		// (1) print / sleep: multiset of (type, line)
 		for _, typ := range []string{TbsPrint, TbsSleepy} {
 			want := map[int][]TbsExpect{}
@@ -486,6 +520,10 @@ func TbsCheck(t *testsmellgen.Tree, observed []TbsFinding, relOf func(fileName s
 			}
 			for _, l := range gotLines {
 				if got[l] <= len(want[l]) {
+					continue
+				}
+				if openLines[typ][l] {
+					st.Open += got[l] - len(want[l])
 					continue
 				}
 				m, desc := callsAt(l)
